@@ -23,7 +23,7 @@ META = {
     "note": "Bounded; the reference value of a formula does not depend on any parser (AST evaluator in /verif/harness/rt_c18.py, two working "
             "precisions and a perturbation probe: ill-conditioned points decide nothing). A disagreement between the two references is a checker error, "
             "not a violation. Formulas that are undefined at all sample points are outside the property and are skipped.",
-    "technique": "contract-based deductive verification of the label post-processing of both string entry points (AST->VC->SMT, abstract strings, filter primitives) + "
+    "technique": "contract-based deductive verification of the label post-processing of both string entry points and of generator.labels_to_shape (AST->VC->SMT, abstract strings, filter primitives, ghost witness) + "
                  "bounded stand-in (grammar-based generation, exhaustive small formulas + seeded samples) with an independent evaluator on the real code",
 }
 CHECKER = "./bin/check C18"
